@@ -110,9 +110,10 @@ def check(case):
                     j = numpy.abs(prev_last - seq[:, 0]).max()
                     # the two regions accumulate the same integral in different order: round-off
                     # relative to the size of zShift (hundreds of radians at small R)
-                    # (1e-6: the value is handed from region to region through arrays that are themselves
-                    # interpolated on FineContours; the integral clauses below resolve 1e-4 at best, a chain
-                    # that loses a term jumps by the size of a cell's increment)
+                    # (1e-6: the next region starts from this region's last value plus the integral
+                    # interpolated at the distance of its own first point, which differs from the start of
+                    # its FineContour by the refinement tolerance - jumps of 1e-8 rad; a chain that loses a
+                    # term jumps by the size of a cell's increment)
                     if j > 1e-6 * (1.0 + float(numpy.abs(seq).max())):
                         fail("C06/zShift-discontinuous-at-join", {"region": reg["name"], "max_jump": float(j)})
                 prev_last = seq[:, -1]
